@@ -8,8 +8,17 @@ import os
 import sys
 
 import vlib
+import skeleton
 
 REGISTRY = {}
+
+
+def skeleton_drift():
+    d = skeleton.drift()
+    if d:
+        return ("the simulator re-implements control flow of functions whose text changed since the harness was written "
+                "(the per-event tie no longer covers what they do): " + "; ".join(d))
+    return None
 
 
 def register(pid, **kw):
@@ -147,11 +156,11 @@ NODE_PROPS = {
  "C09": dict(events={"ESnapRun", "ESnapTaken", "ETask", "ESnapReq", "LFlrSnapInstalled", "LFlrUpdate", "LFlrSend", "ERestart", "LReplUpdate",
                      "EVoteResult", "ETimeout", "ETimeoutNowReq"}, tags={"C09"}),  # becoming leader initialises the compaction boundary and the views
  "C11": dict(events={"ETimeout", "ETimeoutNowReq", "ETask", "LReplUpdate", "LChangeConfig", "EAppendReq", "LClient"}, tags={"C11"}),
- "C12": dict(events={"ESnapRun", "ESnapTaken", "ETask", "ESnapReq", "ERestart"}, tags={"C12"}),
+ "C12": dict(events={"ESnapRun", "ESnapTaken", "ETask", "ESnapReq", "ERestart", "LReplUpdate", "LChangeConfig", "LClient"}, tags={"C12"}),  # a pending label must survive them
  "C15": dict(events=None, tags={"C15"}),
  "C16": dict(events={"LTransfer", "LTimeoutNowResult", "LTransferTimeout", "LNewTermTimeout", "ETimeoutNowReq", "LClient", "LReplUpdate", "LChangeConfig",
                      "EVoteReq", "ETimeout", "EVoteResult"}, tags={"C16"}),  # the target's election (transfer flag in its vote requests) is part of the transfer
- "C17": dict(events={"EVoteReq", "LFlrResp", "LFlrSend", "ETimeout", "LReplUpdate"}, tags={"C17"}),
+ "C17": dict(events={"EVoteReq", "LFlrResp", "LFlrSend", "ETimeout", "LReplUpdate", "LTransferTimeout", "LTimeoutNowResult", "LNewTermTimeout"}, tags={"C17"}),  # a failed transfer must leave the leader able to go on
  "C19": dict(events=None, tags={"C19"}),
 }
 
@@ -298,6 +307,7 @@ def run_node(pid, tier, seed):
                    "model: reply, task replies, messages, full post-state. Monitors run on the implementation after every event. "
                    "distinct_nontrivial = distinct pre-states (full node dumps)",
            "samples": samples[:4], "distribution": dist, "traces_validated_against_impl": total}
+    broken = broken or skeleton_drift()
     cov.update(abs_cov)
     if abs_cov:
         cov["rule"] += ("; abstract tie: %d whole-cluster histories (%d events) of the real nodes were checked by "
@@ -468,7 +478,7 @@ def run_c10(pid, tier, seed):
                    "evaluations = crash images restarted; distinct_nontrivial = distinct crash points + events executed",
            "samples": [meta["points"]] + meta["samples"][:2], "distribution": meta["dist"], "image_failures": meta["image_failures"],
            "exhaustive_over": "all verifPoints fired by each imaged event"}
-    return {"violations": viols, "coverage": cov, "tie_broken": broken}
+    return {"violations": viols, "coverage": cov, "tie_broken": broken or skeleton_drift()}
 
 
 register("C10", run=run_c10, tie="crash images of real nodes (go/inpkg/sim_crash.go) + coq/Node/Cases.v (ERestart) vs storage.go, value.go, snapshots.go, rpc.go, fsm.go, log/*",
